@@ -144,7 +144,7 @@ Lemma complete_run r c f fc rest top vals :
 Proof.
   intros G D EF EP EX EV LB c4. pose proof G as (C & X & St & E & M & MR & SU).
   split; [|apply (good_upd r c c4 G); exact SU].
-  eapply StepsCont; [|apply StepsRefl].
+  apply steps_cont_upd.
   unfold do_iter. rewrite X, C, SU, EF, St.
   destruct frame_fuel_S as [k Hk]. rewrite Hk. cbn [frame_next]. rewrite EF.
   assert (A1 : at_end f = false) by (unfold at_end; apply Nat.eqb_neq; lia).
@@ -293,7 +293,7 @@ Proof.
   - assert (EX : exec_instr (IAssign n) r1 c1' = Ok (ns_set r1 (f_ns f1) n (cv v), c2)).
     { cbn [exec_instr]. rewrite P. rewrite NE, IL. destruct (cv v); try reflexivity. exfalso. apply NV. reflexivity. }
     destruct (run_one_g r1 c1 f1 rest1 (IAssign n) _ _ G1 EF1 N1 EX) as [S2 G2].
-    { exact SU. } { unfold ns_set, set_nss, rt_with, ctl_same. cbn. auto 10. }
+    { exact SU. } { unfold ns_set, set_nss, rt_with, ctl_same, cfg_same. cbn. auto 15. }
     eexists _, _, _, rest1. split; [exact S2|]. split.
     { split; [exact G2|]. split; [reflexivity|]. split.
       { split; [cbn; rewrite <- E1; constructor; [exact FM|exact F']|].
